@@ -1,23 +1,8 @@
-import AmrK.Generated.Constants
-import AmrK.CanonDefs
-/-! Probe: obligations on the regenerated constants (re-checked on every run). -/
-namespace Generated
-/-- taste compares every FAB header but the first with `header_from_indices`; a 2D slice written by
-    mandoline is only valid if its duplicated literal is the same text -/
-theorem mandolineHeader_eq_utilsHeader : mandolineHeaderConst = utilsHeaderConst := by decide
-theorem chunk_threshold : mandolineChunkBytes = 1000000 := by decide
-/-- the state vector ends with rhoh, temp, RhoRT and the species sit between index 4 and -3 -/
-theorem state_layout : stateFieldIndices.lookup "Y_start" = some 4 ∧ stateFieldIndices.lookup "Y_end" = some (-3)
-    ∧ stateFieldIndices.lookup "rhoh" = some (-3) ∧ stateFieldIndices.lookup "temp" = some (-2)
-    ∧ stateFieldIndices.lookup "RhoRT" = some (-1) := by decide
-theorem output_names_match_state_order :
-    chk2pltNameLists.head? = some ["x_velocity", "y_velocity", "z_velocity", "density"] ∧
-    chk2pltNameLists[1]? = some ["rhoh", "temp", "RhoRT"] := by decide
-end Generated
-
-namespace Generated
-/-- the byte-level printer of the model (`Py.canonB`, whose codec law `parse_canonB` is proved)
-    starts with exactly the literal found in `utils.header_from_indices` -/
-theorem utilsHeader_is_model_prefix :
-    Py.ofString utilsHeaderConst = Py.sepJoin (Py.prefixToks.map (·, 32)) ++ Py.lastConst := by decide +kernel
-end Generated
+import AmrK.Obligations.HeaderLiteral
+import AmrK.Obligations.MandolineLiteral
+import AmrK.Obligations.ChkTables
+import AmrK.Obligations.NoSwallow
+import AmrK.Obligations.PoolCalls
+import AmrK.Obligations.FortranOrder
+/-! All obligations on the regenerated constants (each in its own module so that a broken one only
+    breaks the properties that depend on it). -/
